@@ -180,6 +180,9 @@ def _fmt_obs(case) -> str:
     name = case["fmt"]
     spec = [f for f in formats_for(case["key"]["type"]) if f[0] == name][0]
     _, ttype, kw, ftype, public = spec
+    if "pp" in case:                      # explicit passphrase: {"b": hex} = bytes, {"s": text} = str
+        kw = dict(kw)
+        kw["passphrase"] = bytes.fromhex(case["pp"]["b"]) if "b" in case["pp"] else case["pp"]["s"]
     src = K.public() if public else K
     if name == "blob":
         s = src.blob()
@@ -187,7 +190,10 @@ def _fmt_obs(case) -> str:
         s = src.privateBlob()
     else:
         s = src.toString(ttype, **kw)
-    K2 = keys.Key.fromString(s, type=ftype, passphrase=kw.get("passphrase"))
+    try:
+        K2 = keys.Key.fromString(s, type=ftype, passphrase=kw.get("passphrase"))
+    except (keys.BadKeyError, keys.EncryptedKeyError) as e:
+        return "NE:unreadable-" + type(e).__name__        # its own serialisation is not read back
     probs = []
     if K2 != src:
         probs.append("not-equal")
@@ -210,8 +216,10 @@ def impl(case) -> str:
     if k == "ns":
         xs = [bytes.fromhex(x) for x in case["xs"]]
         rest = bytes.fromhex(case["rest"])
+        # NS also accepts text, which it must encode as UTF-8 first: elements flagged in case["text"] are passed as str
+        text = case.get("text") or [False] * len(xs)
         try:
-            b = b"".join(common.NS(x) for x in xs)
+            b = b"".join(common.NS(x.decode("utf-8") if t else x) for x, t in zip(xs, text))
         except Exception as e:
             return _exn(e)
         try:
@@ -341,6 +349,9 @@ def oracle(case, obs):
             return None
         kd = case["key"]
         tag = f"keyfmt-{kd['type']}-{case['fmt']}-{obs}"
+        if "pp" in case:
+            pp = bytes.fromhex(case["pp"]["b"]) if "b" in case["pp"] else case["pp"]["s"].encode("utf-8")
+            tag = f"keyfmt-{case['fmt']}-passphrase-{'over' if len(pp) > 72 else 'upto'}-72-bytes-{obs.split(':')[0]}"
         if kd["type"] == "RSA" and case["fmt"] == "private-lsh" and kd["p"] > kd["q"] and obs == "NE:not-equal":
             tag = "lsh-private-rsa-p-gt-q"
         return Failure(case, f"{kd['type']} key through format {case['fmt']}: {obs}", tag)
@@ -411,12 +422,32 @@ def key_pool(rng, tier):
     return pool
 
 
-def gen(rng, tier):
+TEXTS = ["", "a", "password", "p\u00e4ssword", "\u00e9" * 40, "\u00df", "\u4e2d\u6587\u5bc6\u7801", "\U0001f511key", "x" * 255 + "\u00e9",
+         "na\u00efve caf\u00e9", "\u0000\u00ff"]
+PASSPHRASES = [{"b": (b"b" * 72).hex()}, {"b": (b"c" * 73).hex()}, {"s": "\u00e9" * 40}, {"b": (b"d" * 100).hex()},
+               {"b": (b"a" * 71).hex()}, {"s": "\u00e9" * 36}, {"s": "e" * 73}, {"b": ("\u00e9" * 37).encode("utf-8").hex()},
+               {"s": "short \u00fcml"}, {"b": b"\xff\xfe".hex() * 40}]
+
+
+def gen_wire(rng, n):
+    """the NS/MP/getNS/getMP cases only (also the search space when a tie breaks: no key generation)"""
     cases = []
-    n = 200 if tier == "quick" else 2000
     for _ in range(n):
         xs = [_rand_string(rng) for _ in range(rng.choice([0, 1, 1, 1, 2, 3, 5]))]
         cases.append({"kind": "ns", "xs": [x.hex() for x in xs], "rest": _rbytes(rng, rng.choice([0, 0, 1, 3, 4, 9])).hex()})
+    for _ in range(max(10, n // 4)):
+        # text arguments (NS encodes str as UTF-8), mixed with byte strings, non-ASCII included
+        ts = [rng.choice(TEXTS) for _ in range(rng.choice([1, 1, 2, 3]))]
+        xs = [t.encode("utf-8") for t in ts]
+        flags = [rng.random() < 0.8 for _ in ts]
+        cases.append({"kind": "ns", "xs": [x.hex() for x in xs], "text": flags,
+                      "rest": _rbytes(rng, rng.choice([0, 1, 4, 9])).hex()})
+    return cases
+
+
+def gen(rng, tier):
+    n = 200 if tier == "quick" else 2000
+    cases = gen_wire(rng, n)
     for _ in range(n):
         ns = [_rand_int(rng) for _ in range(rng.choice([0, 1, 1, 1, 2, 3, 4]))]
         if rng.random() < 0.05 and ns:
@@ -444,6 +475,17 @@ def gen(rng, tier):
                 if tier == "quick" and slow > 6:
                     continue
             cases.append({"kind": "keyfmt", "key": kd, "fmt": f[0]})
+    # passphrases around bcrypt's 72-byte input limit, multi-byte text, bytes vs str (bcrypt KDF: ~1 s per case)
+    bytype = {}
+    for kd in pool:
+        bytype.setdefault(kd["type"], []).append(kd)
+    small = [bytype[t][0] for t in ("Ed25519", "RSA", "EC", "DSA")] + [bytype["EC"][-1], bytype["Ed25519"][-1]]
+    for i, pp in enumerate(PASSPHRASES if tier != "quick" else PASSPHRASES[:6]):
+        for j in range(1 if tier == "quick" else 4):
+            kd = small[(i + j) % len(small)]
+            cases.append({"kind": "keyfmt", "key": kd, "fmt": "openssh-v1-pass", "pp": pp})
+            if kd["type"] != "Ed25519" and (i + j) % 2:
+                cases.append({"kind": "keyfmt", "key": kd, "fmt": "openssh-pem-pass", "pp": pp})
     return cases
 
 
@@ -498,6 +540,8 @@ def describe(case):
     if case["kind"] in ("key", "keyfmt"):
         kd = case["key"]
         d = {"kind": case["kind"], "type": kd["type"]}
+        if "pp" in case:
+            d["passphrase"] = case["pp"]
         if "fmt" in case:
             d["fmt"] = case["fmt"]
         if kd["type"] == "RSA":
@@ -548,6 +592,7 @@ SPEC = Spec(
     to_coq=to_coq,
     corpus=corpus,
     regen=lambda: tr.regen(REPO, COQ),
+    search=lambda rng: gen_wire(rng, 1500),        # when a tie breaks: wire cases only (no key generation)
     shrink=shrink,
     histogram=hist,
     describe=describe,
